@@ -259,6 +259,20 @@ for _fn, _fl in _MODULE_FAULTS:
         if _in == "through_middle_module":
             _files["mid.ms"] = 'import area from lib\nexport twice: fn(int) -> int = fn(a: int) -> int {\n  return area(a)\n}\n'
         EXTRA.append(("module_fault:%s:import_%s" % (_fn, _in), _files))
+# round 6: `Self` of an imported class must be resolved against the RECEIVER's class also when the receiver is typed
+# through an alias (or is a parameter / field of alias type) and the call stands inside another class
+_SHLIB = 'export class Sh {\n  s: int\n  constructor(self, s: int) {\n    self.s = s\n  }\n  fn same(self, o: Self) -> bool {\n    return self.s == o.s\n  }\n  fn plus(self, o: Self) -> int {\n    return self.s + o.s\n  }\n}\n'
+for _rn, _imp, _decl, _recv in (
+        ("alias_local", "import Sh from lib\ntype Length Sh\n", "    q: Length = Sh(3)\n", "q"),
+        ("alias_param", "import Sh from lib\ntype Length Sh\n", None, "m"),
+        ("alias_of_alias_local", "import Sh from lib\ntype Len0 Sh\ntype Length Len0\n", "    q: Length = Sh(3)\n", "q"),
+        ("plain_param", "import Sh from lib\n", None, "m")):
+    _pty = "Length" if "alias" in _rn else "Sh"
+    if _decl is None:
+        _body = ('class Cv {\n  w: int\n  constructor(self) {\n    self.w = 1\n  }\n  fn go(self, m: %s) -> int {\n    return m.plus(self)\n  }\n}\nc = Cv()\nprint c.go(Sh(3))\n' % _pty)
+    else:
+        _body = ('class Cv {\n  w: int\n  constructor(self) {\n    self.w = 1\n  }\n  fn go(self) -> int {\n%s    return %s.plus(self)\n  }\n}\nc = Cv()\nprint c.go()\n' % (_decl, _recv))
+    EXTRA.append(("other_class_instance_for_imported_self_param:%s" % _rn, {"main.ms": 'print "@@RUN@@"\n' + _imp + _body, "lib.ms": _SHLIB}))
 _PIX = 'export class Point {\n  x: int\n  y: int\n  constructor(self, x: int, y: int) {\n    self.x = x\n    self.y = y\n  }\n}\n'
 _LAB = 'export class Point {\n  x: str\n  y: str\n  constructor(self, x: str, y: str) {\n    self.x = x\n    self.y = y\n  }\n}\n'
 EXTRA.append(("same_named_class_of_another_module_as_argument",
